@@ -99,37 +99,45 @@ class Creators:
         gfa_line = gfapy.Line(gfa_line, dialect=self._dialect)
       gfa_line.connect(self)
     elif rt == "H":
-      self._n_input_header_lines += 1
       if isinstance(gfa_line, str):
         gfa_line = gfapy.Line(gfa_line, vlevel=self._vlevel,
             dialect=self._dialect)
-      self.header._merge(gfa_line)
+      version = None
       if gfa_line.VN:
         if gfa_line.VN == "1.0":
-          self._version = "gfa1"
+          version = "gfa1"
         elif gfa_line.VN == "2.0":
-          self._version = "gfa2"
+          version = "gfa2"
         else:
-          self._version = gfa_line.VN
+          version = gfa_line.VN
+        # the checks are done before the state of the Gfa is changed
+        if self._vlevel > 0 and version not in gfapy.VERSIONS:
+          raise gfapy.VersionError(
+            "GFA specification version {} not supported".format(version))
+        self.__check_line_queue(version)
+      self._n_input_header_lines += 1
+      self.header._merge(gfa_line)
+      if version is not None:
+        self._version = version
         self._version_explanation = "specified in header VN tag"
-        if self._vlevel > 0:
-          self._validate_version()
         self.process_line_queue()
     elif rt == "S":
       if isinstance(gfa_line, str):
         gfa_line = gfapy.Line(gfa_line, vlevel=self._vlevel,
             dialect=self._dialect)
+      self.__check_line_queue(gfa_line.version, gfa_line)
       self._version = gfa_line.version
       self._version_explanation = \
           "implied by: syntax of S {} line".format(gfa_line.name)
       self.process_line_queue()
       gfa_line.connect(self)
     elif rt in ["E", "F", "G", "U", "O"]:
-      self._version = "gfa2"
-      self._version_explanation = "implied by: presence of a {} line".format(rt)
       if isinstance(gfa_line, str):
         gfa_line = gfapy.Line(gfa_line, vlevel=self._vlevel,
-            version=self._version, dialect=self._dialect)
+            version="gfa2", dialect=self._dialect)
+      self.__check_line_queue("gfa2", gfa_line)
+      self._version = "gfa2"
+      self._version_explanation = "implied by: presence of a {} line".format(rt)
       self.process_line_queue()
       gfa_line.connect(self)
     elif rt in ["L", "C", "P"]:
@@ -137,6 +145,24 @@ class Creators:
       self._line_queue.append(gfa_line)
     else:
       self._line_queue.append(gfa_line)
+
+  def __check_line_queue(self, version, gfa_line = None):
+    """
+    Check that the lines kept aside while the version was unknown (and the
+    line which determines the version) can be added to a Gfa of that version.
+    The check is done on a scratch instance, before the version is set,
+    so that, if a line is refused, the state of the Gfa does not change.
+    """
+    if version not in gfapy.VERSIONS:
+      return
+    if not self._line_queue and gfa_line is None:
+      return
+    scratch = gfapy.Gfa(vlevel=self._vlevel, version=version,
+                        dialect=self._dialect)
+    for queued in self._line_queue + ([gfa_line] if gfa_line else []):
+      if isinstance(queued, gfapy.Line):
+        queued = queued.clone()
+      scratch.add_line(queued)
 
   def __add_line_GFA1(self, gfa_line):
     if isinstance(gfa_line, str):
